@@ -322,7 +322,7 @@ CLAIMED = {
              "assertion is dead; every phase that can be current has a processEOF; generateImpliedEndTags pops "
              "exactly the maximal implied run and never the root. PARTIAL: absence of exceptions in the phase "
              "handlers and the skeleton clause are decided by parsing tag soup, every dispatch-table tag in every "
-             "table/select/foreign context, nesting to depth 3 000 (thorough 30 000), random bytes, with both "
+             "table/select/foreign context, nesting to depth 3 000 (thorough 10 000), random bytes, with both "
              "builders, namespacing on/off, document and fragment mode with 30 containers, scripting on/off.",
         design_ref="DESIGN.md 3 C03",
         note="two crashes repaired in /repo (recursion, table EOF assertion).",
